@@ -1236,7 +1236,10 @@ impl Gen {
             let total = amount + fee.amount.u128();
             funds.push(coin(
                 match variant {
-                    0 => total + 1,
+                    0 => total.saturating_add(match self.rng.below(3) {
+                        0 => amount.saturating_add(self.rng.range(0, 3) as u128),
+                        _ => 1,
+                    }),
                     1 => total.saturating_sub(1),
                     // exactly the fee, nothing for the declared reward
                     3 if !fee.amount.is_zero() => fee.amount.u128(),
@@ -1259,7 +1262,13 @@ impl Gen {
             if !fee.amount.is_zero() {
                 funds.push(coin(
                     match variant {
-                        1 => fee.amount.u128() + self.rng.range(1, 50) as u128, // overpay: refunded
+                        // overpay: refunded - by a little, by exactly the reward, by more than the reward
+                        1 => fee.amount.u128().saturating_add(match self.rng.below(4) {
+                            0 => amount,
+                            1 => amount.saturating_add(self.rng.range(1, 5000) as u128),
+                            2 => amount.saturating_mul(3),
+                            _ => self.rng.range(1, 50) as u128,
+                        }),
                         2 => fee.amount.u128().saturating_sub(1),
                         _ => fee.amount.u128(),
                     },
